@@ -17,6 +17,21 @@ OBLIGATIONS.append(dict(name="export_table_error_reported", harness="harness/C13
 OBLIGATIONS.append(dict(name="cleanup_unlinks_on_failure", harness="harness/C13_misc.c", sources=[], included_sources=["lib/common/src/writer/cleanup.c"],
     defines=dict(MODE=2), unwind=4, tiers=["quick", "thorough"], timeout=200, reach=["removed", "kept"],
     functions=["sqfs_writer_cleanup (lib/common/src/writer/cleanup.c)"], bound="any exit status"))
+FPIO = {'read_at': ['vp_file_read_at'], 'write_at': ['vp_file_write_at'], 'truncate': ['vp_file_truncate'], 'get_size': ['vp_file_get_size'], 'do_block': ['cw_do_block', 'vp_cmp_do_block']}
+OBLIGATIONS.append(dict(name="blockwriter_io_failure_h1_nb1", harness="harness/C08_blockwriter.c", sources=["lib/util/src/file_cmp.c", "lib/util/src/array.c"],
+    included_sources=["lib/sqfs/src/block_writer.c"], defines=dict(H=1, NB=1, SZ=2, MODE=3), unwind=10, tiers=["quick", "thorough"], timeout=300, fp_map=FPIO,
+    reach=["io_error_reported", "stored"], functions=["write_data_block, deduplicate_blocks (lib/sqfs/src/block_writer.c)", "check_file_range_equal"],
+    bound="history of 1 block, one new 1-block file, every write_at/read_at/truncate may fail"))
+OBLIGATIONS.append(dict(name="blockwriter_io_failure_h2_nb2", harness="harness/C08_blockwriter.c", sources=["lib/util/src/file_cmp.c", "lib/util/src/array.c"],
+    included_sources=["lib/sqfs/src/block_writer.c"], defines=dict(H=2, NB=2, SZ=2, MODE=3), unwind=14, tiers=["thorough"], timeout=1200, fp_map=FPIO,
+    reach=["io_error_reported", "stored"], functions=["write_data_block, deduplicate_blocks (lib/sqfs/src/block_writer.c)"],
+    bound="history of 2 blocks, one new 2-block file, every file operation may fail"))
+OBLIGATIONS.append(dict(name="meta_writer_io_failure", harness="harness/C03_metaw.c", sources=[], included_sources=["lib/sqfs/src/meta_writer.c"],
+    pre_include=["stubs/vp_pre_meta.h"], defines=dict(VP_META=4, A=3, NAPP=2, VP_CMP_MAXOUT=4, IOFAIL=1), unwind=10, unwindset={"vp_cmp_init.0": 5, "vp_cmp_init.1": 5},
+    tiers=["thorough"], timeout=900, fp_map=FPIO, reach=["compressor_error"], allow_unreached=True,
+    functions=["sqfs_meta_writer_append/flush, write_block, sqfs_meta_write_write_to_file (lib/sqfs/src/meta_writer.c)"],
+    bound="2 appends of <= 3 bytes, block size 4, every write_at may fail"))
+
 ASSUMPTIONS = ["allocation failure is modelled at the constructor / copy-hook level (stub returns NULL nondeterministically)", "I/O failure through the memfile stub (vp_io_may_fail)"]
 OUTSIDE = ["whole-tool exit status and 'exit 0 => output identical to a fault-free run' (follows per function, not checked end to end)", "fault positions in functions that are not harnessed"]
 META = dict(
